@@ -54,11 +54,19 @@ def compare(trs):
     divs = []
     if not trs: return divs
     lines = []; meta = []
+    ok = []
     for tr in trs:
-        line, vals, table, wprogs = build(tr)
+        try:
+            line, vals, table, wprogs = build(tr)
+        except Exception as e:
+            # the call log has a shape the protocol model cannot express (the code changed): a divergence, not a harness crash
+            divs.append(dict(detail=dict(what='call log not expressible in the model: %s: %s' % (type(e).__name__, e), schedule=[s_[:3] for s_ in tr['sched']][:40]),
+                             cfg=tr['case']['cfg'], case=dict(scen=tr['case']['scen'], prior=repr(tr['case']['prior']), procs=repr(tr['case']['procs']))))
+            continue
         lines += [json.dumps(dict(suite='fs', op='cfg')), json.dumps(line)]
-        meta.append((vals, table, wprogs))
-    outs = run_driver(lines)
+        meta.append((vals, table, wprogs)); ok.append(tr)
+    trs = ok
+    outs = run_driver(lines) if lines else []
     for n, tr in enumerate(trs):
         m = outs[2 * n + 1]; vals, table, wprogs = meta[n]
         case = tr['case']; cfg = case['cfg']
